@@ -178,11 +178,42 @@ fn magnitude(g: &Geo) -> f64 {
 /// Output tolerance: f32 positions lose absolute precision far from the origin (ulp = 6e-8 x
 /// magnitude); that error enters the attenuation relative to the width of the distance range and
 /// the ear directions relative to the emitter's distance from the ears (at least 0.1).
+fn att_at(g: &Geo, d: f64) -> f64 {
+	match g.attenuation {
+		None => 1.0,
+		Some(e) => {
+			let rel = ((d.clamp(g.min as f64, g.max as f64) - g.min as f64) / (g.max as f64 - g.min as f64)).clamp(0.0, 1.0);
+			let db = -60.0 + 60.0 * ease(e, 1.0 - rel);
+			if db <= -60.0 {
+				0.0
+			} else {
+				10f64.powf(db / 20.0)
+			}
+		}
+	}
+}
+
 fn scale(g: &Geo) -> f64 {
 	let m = magnitude(g);
 	let d = (v(g.listener_pos) - v(g.emitter)).length() as f64;
+	// how much the attenuation itself moves when the distance moves by the rounding of f32
+	// coordinates: an easing like OutPowf(0.1) is vertical at one end of the range, so the
+	// sensitivity is taken from the curve, not from a bound on its slope
+	let delta = 16.0 * f32::EPSILON as f64 * m.max(d).max(1.0);
+	let a0 = att_at(g, d);
+	let spread = [d - delta, d + delta, d - 4.0 * delta, d + 4.0 * delta].iter().map(|x| (att_at(g, x.max(0.0)) - a0).abs()).fold(0.0, f64::max);
+	let spread = if spread > 2e-3 { f64::INFINITY } else { spread };
+	if spread.is_infinite() {
+		return f64::INFINITY;
+	}
 	// the attenuation curve can be steep (powers up to 8, 60 dB over the range): x60
-	1e-5 + 6e-5 * m.max(d) / (g.max - g.min).max(0.01) as f64 + 1e-6 * m / d.max(0.1)
+	// the ear gains depend on the direction from each ear to the emitter: ill-conditioned when the
+	// emitter sits (almost) on an ear
+	let lp = v(g.listener_pos).as_dvec3();
+	let rot = q(g.listener_rot).as_dquat();
+	let em = v(g.emitter).as_dvec3();
+	let ear_d = [-0.1f64, 0.1].iter().map(|x| (em - (lp + rot * (glam::DVec3::X * *x))).length()).fold(f64::INFINITY, f64::min);
+	1e-5 + 4.0 * spread + 6e-5 * m.max(d) / (g.max - g.min).max(0.01) as f64 + 2e-6 * m.max(1.0) / ear_d.max(1e-9)
 }
 
 impl Property for C15 {
@@ -202,7 +233,7 @@ impl Property for C15 {
 		120
 	}
 	fn cases(&self, tier: Tier) -> u64 {
-		tier.pick(40_000, 1_000_000)
+		tier.pick(500_000, 5_000_000)
 	}
 
 	fn run(&self, tape: &[u32], ctx: &mut Ctx) -> CaseResult {
@@ -451,6 +482,6 @@ impl Property for C15 {
 		}
 		let off_axis = local.x.abs() > 1e-3 && (local.y.abs() > 1e-3 || local.z.abs() > 1e-3);
 		let between = d > g.min && d < g.max;
-		Ok(CaseInfo::new(&src, off_axis && between, vec![class]))
+		Ok(CaseInfo::new(&src, off_axis && between && scale(&g).is_finite(), vec![class]))
 	}
 }
